@@ -118,6 +118,9 @@ func c05Backlog(r *Run) {
 					hooks.Reset(false)
 					return
 				}
+				if req.Id == open.Id {
+					r.Violate("backlog.ids", "ops", "the call started after an abandoned stream was given the abandoned stream's id", in, req.Id, "an id never used on this connection")
+				}
 				early := false
 				select {
 				case res := <-done:
